@@ -613,3 +613,13 @@ CHECKS["C03"]["lean_modules"] = CHECKS["C03"]["lean_modules"] + ["SycVerif.Props
 CHECKS["C03"]["theorems"] += [RX + "C01_subscribers_of_written_run_set"]
 CHECKS["C10"]["partial"] = [{"theorem": "C10 (ii) 'state is consistent as after a single write' for impure bodies", "missing": "consistency of VALUES at the end of the batch is proved for pure computations and write-only batch bodies (C10_batch_end_consistent); "
     "for arbitrary closures what is proved is that every subscriber of a written signal RAN (C10_batch_subscribers_run) and that nothing ran inside the batch; value consistency there is checked by the oracles"}]
+
+# --- tasks that dispose their own scope while they are being polled (Model/Async completeX / stepX): Props/C14Suicide
+CHECKS["C14"]["lean_modules"] = CHECKS["C14"]["lean_modules"] + ["SycVerif.Props.C14Suicide"]
+CHECKS["C14"]["theorems"] += [AS + n for n in ["C14_stepX_nil", "C14_runX_nil", "C14_stepX_other", "C14_suicide_polls", "C14_suicide_scopes", "C14_suicide_scope_dead",
+    "C14_suicide_not_pending", "C14_suicide_self", "C14_suicide_cancels", "C14_suicide_others", "C14_suicide_pending_antitone", "C14_suicide_no_poll_after",
+    "C14_suicide_no_poll_after'", "C14_suicide_last_poll", "C14_suicide_as_two_steps'", "C14_suicide_as_two_steps_obs", "C14_suicide_invariant"]]
+CHECKS["C14"]["status"] += ("; a task whose body disposes the scope it was spawned in (aborted WHILE it is polled; Props/C14Suicide, machine stepX): the body resumes exactly once, "
+    "afterwards no task of the disposed subtree (the task itself included) is pending or ever polled again for EVERY later event sequence (C14_suicide_no_poll_after), surviving "
+    "boundaries are released; with await points left the step equals a completion followed by a disposal (C14_suicide_as_two_steps'), at the last await point up to the counters of dead boundaries "
+    "(C14_suicide_as_two_steps_obs); stepX [] = step")
